@@ -14,7 +14,7 @@ CHECKS = {}
 def add(pid, engine, category, technique, text, note):
     CHECKS[pid] = dict(engine=engine, category=category, technique=technique, text=text, note=note)
 
-MODEL_NOTE = "trusted: the reference model in harness/src/model.rs (naive LF splitter), proptest's generators/shrinker, the scripted in-memory source; bounded input sizes (<= ~600 bytes, capacities <= 300 + relative ones)"
+MODEL_NOTE = "trusted: the reference model in harness/src/model.rs (naive LF splitter), proptest's generators/shrinker, the scripted in-memory source; most generated inputs are <= ~600 bytes with capacities <= 300 + relative ones; dedicated sub-checks add documents of 10 kB..1 MB, records of 64 KiB..18 MiB, capacities up to 20 MiB and (C05/C17) generated sources beyond 4 GiB"
 
 add("C01", "harness", "exploration", "property-based testing: generated inputs x configurations against an independent reference model (proptest) + exhaustive small-scope enumeration + libFuzzer with the same oracle (thorough)",
     "Differential against the reference model M_fa over grammar-built documents, mutations and byte soups x capacities (absolute and aligned to record ends) x policies x chunk/interrupt scripts x three consumption modes; both directions (nothing lost, nothing invented, order). The thorough tier enumerates every string up to length 9 over a 5-symbol structural alphabet for capacities 3..12. Sampling beyond that scope: no proof of absence.",
@@ -45,16 +45,16 @@ add("C11", "harness", "exploration", "property-based testing: round trip (write 
     MODEL_NOTE)
 add("C12", "harness", "exploration", "metamorphic property-based testing: one generated structure rendered with LF and with CRLF / per-line mixtures, outcomes compared (proptest) + exhaustive tiny structures",
     "Metamorphic relation LF vs CRLF (FASTA: also per-line mixtures), with/without final terminator, two capacities, three read modes; additionally both renderings must parse back to the generating structure, so an error appearing or disappearing on both sides is seen too. Exhaustive over tiny structures x capacities 3..12.",
-    "trusted: the renderer in harness/src/props/c12.rs; well-formed = what it renders")
+    "trusted: the renderer in harness/src/props/c12.rs; well-formed = what it renders; every accessor of every record (from next() and from record sets) is compared between the renderings")
 add("C13", "harness", "exploration", "property-based testing: algebraic relations between accessors, three observations of every record (proptest)",
     "Relations between all accessors of every record of generated inputs (incl. non-UTF-8, empty headers, repeated spaces, empty lines), observed as borrowed record, owned copy and record-set copy.",
     "no model; bounded input sizes")
 add("C17", "harness", "exploration", "property-based testing: generated malformed inputs with the defect at every record index and buffer alignment, error fields against the reference model (proptest)",
     "Every format error's variant, line, found byte, lengths and id compared with the capacity-free reference model for defects at generated record indices and capacities aimed at the offending group's offset; Display output must contain the values.",
     MODEL_NOTE)
-add("C19", "harness", "exploration", "property-based testing: serialisation round trip (serde_json) of owned records with arbitrary bytes and of reused record sets (proptest)",
+add("C19", "harness", "exploration", "property-based testing: serialisation round trip (serde_json text, serde_json::Value tree, positional binary format) of owned records with arbitrary bytes and of reused record sets (proptest)",
     "deserialize(serialize(x)) compared through every accessor, for owned records with arbitrary bytes and for a reused record set after every (plain / exact) fill, including sets carrying stale offsets and sets after end / error.",
-    "serde_json only (self-describing); binary serde formats not exercised")
+    "three paths: serde_json text, a buffered serde_json::Value tree, and a positional bincode-like format written for the harness (harness/src/minibin.rs); other serde formats are not exercised")
 add("C20", "harness", "exploration", "model-based property testing: generated front/back step programs and adaptor programs against a Vec-with-two-indices model (proptest) + exhaustive step lists",
     "SeqLines stepped from both ends with len()/size_hint() queried after every step and compared with a two-index Vec model; adaptor programs compared with the same adaptors over the model; record-set and owned-record iterators walked past the end. Exhaustive for all step lists <= 8 on 0..5 lines.",
     "the Vec model is the definition of the iterator contracts")
@@ -69,7 +69,7 @@ add("C18", "harness", "exploration", "property-based testing with a resource ora
     "Long generated documents x capacities x modes (next / reused record set) x both formats: every dominated call after warm-up must perform 0 heap allocations (views into the buffer), the set buffer capacity and the reader capacity stay unchanged.",
     "allocations are observed through #[global_allocator] only; domination rule skips calls that may legitimately enlarge an offset vector")
 
-SN = "trusted base: the shuttle re-implementations of mpsc / crossbeam scope / scoped_threadpool in /repo/src/verif_hooks.rs (feature verif_hooks) and shuttle's schedulers; schedules are sampled except in the tiny DFS scope"
+SN = "every check ends with a short complementary pass on real threads (blackbox/); trusted base: the shuttle re-implementations of mpsc / crossbeam scope / scoped_threadpool in /repo/src/verif_hooks.rs (feature verif_hooks) and shuttle's schedulers; schedules are sampled except in the tiny DFS scope"
 add("C07", "sched", "exploration", "schedule-controlled property-based testing: proptest generates configurations and scheduler seeds, shuttle (random / PCT / round-robin / bounded DFS) owns the interleaving of the real parallel.rs; history invariant (exactly-once, own output)",
     "Every execution runs the real read_parallel_init / parallel_fasta / parallel_fastq code under a deterministic scheduler with an instrumented mock reader (tagged sets, content-dependent outputs) or the real readers over documents with batches of different sizes; the recorded history must show exactly-once delivery with the matching output, in-set file order, and file order with one worker. Tiny configurations are enumerated by DFS up to a schedule cap.",
     SN)
@@ -102,7 +102,7 @@ def main():
             {"name": "sched", "path": "sched/", "serves_properties": [p for p in props if CHECKS.get(p, {}).get("engine") == "sched"],
              "kind_free_text": "shuttle 0.9 deterministic schedulers (random / PCT / DFS) over the real parallel.rs built with feature verif_hooks; proptest generates configurations"},
             {"name": "blackbox", "path": "blackbox/", "serves_properties": ["C07", "C08", "C15", "C16"],
-             "kind_free_text": "fallback only: the same drivers and oracles as sched/ on real threads without the hook (no schedule control, watchdog = exit 2); check.sh uses it when the build with feature verif_hooks fails although /repo itself builds"},
+             "kind_free_text": "the same drivers and oracles as sched/ on real threads without the hook (no schedule control, watchdog = exit 2): check.sh runs it as a complementary pass after every successful shuttle pass (many configurations one after the other in one process: sees code that bypasses the shims or keeps process-wide state), and as the fallback when the build with feature verif_hooks fails although /repo itself builds"},
             {"name": "fuzz", "path": "fuzzproj/", "serves_properties": ["C01", "C02", "C03", "C06"],
              "kind_free_text": "cargo-fuzz / libFuzzer targets (thorough tier) that decode bytes into (input, configuration, ops) and run the same oracles"},
         ],
